@@ -73,6 +73,7 @@ pub fn main(run_once: RunOnce) -> i32 {
                     oracle::Tier::Quick => 200,
                     oracle::Tier::Thorough => 2000,
                 }),
+                directed: verif.join("directed"),
                 minimise_budget: Duration::from_secs(match tier {
                     oracle::Tier::Quick => 30,
                     oracle::Tier::Thorough => 120,
@@ -124,6 +125,41 @@ pub fn main(run_once: RunOnce) -> i32 {
             }
             let _ = std::fs::remove_dir_all(&base);
             0
+        }
+        Some("eval") => {
+            // evaluate a hand-written case file (a `Case` as JSON) and print what the oracle says
+            let Some(p) = args.get(2) else {
+                println!("usage: simcli eval <case.json>");
+                return 2;
+            };
+            quiet_stderr();
+            let text = match std::fs::read_to_string(p) {
+                Ok(t) => t,
+                Err(e) => {
+                    println!("HARNESS-ERROR {e}");
+                    return 2;
+                }
+            };
+            let case: model::Case = match serde_json::from_str(&text) {
+                Ok(c) => c,
+                Err(e) => {
+                    println!("HARNESS-ERROR {e}");
+                    return 2;
+                }
+            };
+            let base = campaign::scratch_base();
+            let r = oracle::evaluate(&case, &base, "eval");
+            let _ = std::fs::remove_dir_all(&base);
+            for (i, o) in r.outcomes.iter().enumerate() {
+                println!("op {i}: {:?} err={:?} arrival={:?} files={:?}", o.class, o.err_text, o.arrival, o.after.keys().collect::<Vec<_>>());
+            }
+            for v in &r.violations {
+                println!("VIOLATION property={} replay={} class={} detail={} :: {}", v.property, p, v.class, v.detail, v.message);
+            }
+            if r.rejected {
+                println!("REJECTED (reference run failed)");
+            }
+            if r.violations.is_empty() { 0 } else { 1 }
         }
         Some("catalog") => {
             quiet_stderr();
@@ -200,6 +236,7 @@ fn catalog() -> i32 {
                     role: String::new(),
                     src_age: 0,
                     roots: vec![],
+                    out_sub: String::new(),
                 };
                 let out = sc.out();
                 let o = exec::run_invocation(&mut sc, &tree, &inv, &out);
